@@ -6,17 +6,26 @@ PROP = dict(
         model="coq/Models/Shield.v (exact: order ids/counters, escrow accounts, owner checks, trigger comparisons, order of escrow return / inner call / "
               "removal in ExecuteOrders, which errors revert and which are swallowed (no cache context), nil-dereference panic for a skipped spot order, "
               "UpdatePerpetualOrder ratio check with LegacyDec.Quo; resolved from the implementation: market price read by the keeper, result + committed "
-              "bank transfers of the inner amm.SwapByDenom / perpetual.Open call)",
-        coq_deps=["Base/", "Models/Shield.v", "Proofs/ShieldProofs.v", "Run/ShieldRun.v", "Props/C20.v"],
-        rule="histories of 34-60 ops over 4 funded users on a fresh real app with the market fixture: MsgCreateSpotOrder (stop-loss/limit-sell/limit-buy/market-buy, "
-             "5 denom pairs, wrong amount/target denoms), MsgCreatePerpetualOpenOrder (long usdc/atom collateral, short; leverage 1..25; sized against the pool so that "
+              "bank transfers of the inner amm.SwapByDenom / perpetual.Open call); coq/Models/ShieldPrice.v (exact: the spot market price "
+              "GetAssetPriceFromDenomInToDenomOut computes from the two oracle price records and the decimals: Dec(P).Quo(10^dec) per side, "
+              "Mul by 1, ErrPriceNotFound on zero, Quo; not modelled: the amm spot-price fallback when the oracle has no record / the per-unit value rounds to zero)",
+        coq_deps=["Base/", "Models/Shield.v", "Proofs/ShieldProofs.v", "Run/ShieldRun.v", "Models/ShieldPrice.v", "Proofs/ShieldPriceProofs.v",
+                  "Run/ShieldPriceRun.v", "Props/C20.v"],
+        rule="histories of 34-60 ops over 4 funded users on a fresh real app with the market fixture, 3 of 4 with the 18-decimals asset aweth (2000 USD) and its "
+             "oracle pool (MarketOpts.Extra18): MsgCreateSpotOrder (stop-loss/limit-sell/limit-buy/market-buy, "
+             "9 denom pairs incl. aweth/uusdc, uusdc/aweth, aweth/uatom, uatom/aweth (market prices near 1e-9 / 1e+9 per base unit), wrong amount/target denoms; absolute "
+             "amounts of an 18-decimals denom scaled by 1e12), MsgCreatePerpetualOpenOrder (trading asset uatom in pool 1 or aweth in pool 2; long usdc/asset collateral, short; leverage 1..25; sized against the pool so that "
              "perpetual.Open fails after the collateral moved), MsgUpdate*/MsgCancel*/MsgCancel*Orders from owners and non-owners, MsgExecuteOrders from owners and third "
              "parties with 1-6 ids (unknown and duplicate ids included), bank sends to escrow accounts, oracle price moved to exactly / one step beside a pending "
-             "order's trigger, +-1..25 %, price removed, blocks of 5s..3700s; amounts 0, 1, 1e3, 0.1%, 1/3, all-1, all, all+1 of the wallet and 1..1e12 per decade; "
+             "order's trigger (also by steps below the resolution of the code's per-base-unit value), +-1..25 %, +0.03 % / -0.015 % / +7e-9 (prices with many digits), price removed, blocks of 5s..3700s; amounts 0, 1, 1e3, 0.1%, 1/3, all-1, all, all+1 of the wallet and 1..1e12 per decade; "
              "trigger prices at / one ulp above / below the market, +-10 %, 0, 3x. distinct = distinct (op,result,user) sequence; non-trivial = at least one "
              "successful state-changing transaction",
-        trusted_base=["the market price and the inner call's result/transfers are read from the implementation by running each order attempt on a scratch branch",
-                      "escrow accounts may hold uusdc/uatom/uelys only (the denoms of the fixture); transfers to not-yet-created order accounts are not generated",
+        trusted_base=["the inner call's result/transfers are read from the implementation by running each order attempt on a scratch branch; the spot market price the "
+                      "replay is driven with is the keeper's value, which Coq recomputes (Models/ShieldPrice.v) from the oracle records the harness reads from x/oracle "
+                      "and the fixture's decimals on every attempt with a record on both sides; without a record (amm spot-price fallback) the keeper's value is taken as is",
+                      "the harness judges 'trigger met' by the exact rational (P_base/10^dec_base)/(P_quote/10^dec_quote) (big.Rat), not by the keeper's value; within 2 units "
+                      "of the rate's 18th digit the verdict is withheld (counted in extra)",
+                      "escrow accounts may hold uusdc/uatom/uelys/aweth only (the denoms of the fixture); transfers to not-yet-created order accounts are not generated",
                       "the settlement of queued swaps at the end of a block is taken from the implementation (OEnv: user wallets), escrows/orders must not move"],
         modelled="x/tradeshield handlers as Gallina functions over Z; amm / perpetual internals are resolved choices; " + COMMON_MODELLED,
         level_text="Theorems (Coq, closed under the global context) over a Gallina model of the tradeshield handlers, universally quantified over states, senders, "
@@ -27,11 +36,17 @@ PROP = dict(
                    "empty (invariant), so the owner's cancel always succeeds and returns the escrow in full, and wallet + escrows of every user are conserved by "
                    "every step except the user's own executed orders / market buys / plain transfers / swap settlement (per step and composed over histories); for the code before fix: 8bfd5d3 two refutation witnesses (a failing perpetual.Open keeps its transfers: owner funds lost "
                    "from wallet+escrow while the order stays pending; any failed attempt strands the order with an empty escrow and the owner's cancel is refused). "
+                   "The spot market price as a function of the two oracle records and the decimals (Models/ShieldPrice.v): each LegacyDec stage within 1/2 + 1e-18 unit of "
+                   "its 18th digit, exact on prices with at most 18 - decimals digits, monotone in the base price / antitone in the quote price, trigger decision "
+                   "monotone in the market price and in the oracle price; and a refutation witness: the per-base-unit value price/10^decimals keeps only "
+                   "18 - decimals digits, so the code executes a limit sell of aweth (18 decimals) at 2000.8 while the market is at 2000.6, and a uatom stop loss at the 13th digit. "
                    "The model is replayed by Coq's VM on the very op sequences the real app executed and must reproduce result kind, every user wallet, every "
                    "escrow account and both pending-order lists after every step.",
         level_note="Trusted: Coq kernel+VM; the Go harness; resolved market prices and inner results. The unchanged code violates the property "
-                   "(C20:failed-execute-moved-owner-funds); the repaired model differs only inside ExecuteOrders.",
-        assumptions=["C20_cancel_full assumes the escrow account holds exactly the escrowed amount (exact_escrow)",
+                   "(C20:failed-execute-moved-owner-funds); the repaired model differs only inside ExecuteOrders. Open: C20:executed-without-trigger:market-price-rounded-per-base-unit "
+                   "(C20_trigger_by_exact_price_refuted).",
+        assumptions=["C20_market_price_* are about the oracle-record path of GetAssetPriceFromDenomInToDenomOut (both per-base-unit values non-zero); the amm spot-price fallback is outside the model",
+                     "C20_cancel_full assumes the escrow account holds exactly the escrowed amount (exact_escrow)",
                      "C20_escrow_invariant / C20_cancel_full_history / C20_conserved / C20_conserved_history are about the handler since fix: 8bfd5d3 (fixed = true) "
                      "and assume no_escrow_transfers: no plain bank transfer of the history goes to an escrow account (third-party tokens there are not the "
                      "owner's funds: a perpetual cancel leaves them behind, a spot cancel hands them to the owner); the harness does generate such transfers "
